@@ -12,6 +12,7 @@ EXPLANATION = (
     "cancelled before intervals are taken). R07-fingerprint-nonzero: CuckooFilter::fingerprint returns 1 + (h % M) with "
     "M = 2^l - 1 (u64::MAX when l = 64): in [1, 2^l - 1], never the free-slot marker, never wider than a slot. R07-divisor-nonzero: "
     "every % by the iterator's m is listed with its discharge."
+    " R07-len-estimator: BloomFilter::len() is -(m/k)*ln(1 - x/m) (compared as an exact rational function over m, k, x and the ln atom)."
     " R07-double-hashing: iter_for reduces both base hashes (IV 0 and 1) modulo m, next() yields (h1 + i*h2 + f(i)) mod m, f has k entries modulo m. The cuckoo `accepts n inserts without Full` clause presupposes relocation to the alternate bucket: C01's kick-loop typestate rule is applied. The quotient filter's bound presupposes a lookup confined to the run of its quotient and an exact q+r-bit split: C13's R13-scan / R13-split rules are applied."
 )
 NOT_DECIDED = "every frequency statement (false-positive rates, len() accuracy, cuckoo load without Full): distributions over hashers and keys"
@@ -132,6 +133,31 @@ def run(ctx):
                   "fingerprint is %s: it can be 0 (the free-slot marker) or exceed l_fingerprint bits" % why[:200])
         # the l == 64 branch guard
         from ..paths import PathEnumerator
+    # ---- Bloom len(): the bit-occupancy estimator ------------------------------------------------------------
+    ln_ = ctx.anchor("<%s as filters::Filter[T]>::len" % BLOOM)
+    if ln_ is not None:
+        from .. import symalg as R
+        selfp_ = ("param", 1, "self")
+        r_ = TermBuilder(ln_, prog).return_term()
+        body_ = r_[2] if r_[0] == "cast" else r_
+        bs_ = ("field", selfp_, "bs")
+        m_alts = [("call", "fixedbitset::FixedBitSet::len", (bs_,)), ("field", ("field", selfp_, "builder"), "m"), ("call", "hash_utils::HashIterBuilder::m", (("field", selfp_, "builder"),))]
+        k_alts = [("field", selfp_, "k"), ("field", ("field", selfp_, "builder"), "k"), ("call", "hash_utils::HashIterBuilder::k", (("field", selfp_, "builder"),))]
+        x_alts = [s_ for s_ in subterms(body_) if s_[0] == "call" and (s_[1].endswith("::count") or s_[1].endswith("count_ones"))]
+        atoms_ = {t_: "m" for t_ in m_alts}
+        atoms_.update({t_: "k" for t_ in k_alts})
+        atoms_.update({t_: "x" for t_ in x_alts})
+        okl, why_l = False, fmt(r_)[:200]
+        try:
+            A_ = R.Algebra(atoms_)
+            got_ = A_.of(body_)
+            # n ~ -(m/k) * ln(1 - x/m)
+            want_ = R.r_mul(R.r_mul(R.r_const(-1), R.r_div(R.r_atom("m"), R.r_atom("k"))), A_.ln(R.r_add(R.r_const(1), R.r_div(R.r_atom("x"), R.r_atom("m")), -1)))
+            okl = R.r_eq(got_, want_) and r_[0] == "cast" and bool(x_alts)
+        except R.NotAlgebraic as e_:
+            why_l = "%s (%s)" % (fmt(r_)[:160], e_)
+        ctx.check(okl, "R07-len-estimator", ln_.key, ln_, "len() = -(m/k) * ln(1 - x/m) with x the number of set bits (the occupancy estimator), truncated to usize",
+                  "BloomFilter::len() is not the bit-occupancy estimator -(m/k)·ln(1 - x/m): %s" % why_l)
     from .common import double_hashing_rules
     double_hashing_rules(ctx, "R07-double-hashing")
     # `accepts n distinct inserts without reporting Full` presupposes that an evicted fingerprint is re-offered to its
